@@ -7,7 +7,7 @@
    sum_w, sum_by_w, mean_w, abs_w), and so do the arithmetic callbacks of the
    harness (-x, |x|).  C13_Props relates them to the unbounded reading. *)
 
-From Gogu Require Import Base C13_Model C13_ModelFloat.
+From Gogu Require Import Base C13_Model C13_ModelFloat C13_ModelNum.
 
 (* predicate family: (code, arg) *)
 Definition pred_of (c a : Z) : Z -> bool :=
@@ -230,6 +230,15 @@ Definition c13_run (w : list Z) : list Z :=
       | 43 => zs (fun l => enc_r1 enc_zs (range_right_w 8 range_cap l))
       | 44 => zs (fun l => enc_r1 enc_zs (range_u 8 range_cap l))
       | 45 => zs (fun l => enc_r1 enc_zs (range_right_u 8 range_cap l))
+      (* the decimal codec under Range (C13_ModelNum): NumToString at int64 / int8 / uint8 /
+         uint64 (70, 71, 72, 76; a uint64 travels as the int64 with the same bits) and
+         N at the same types on a text given as its bytes (73, 74, 75, 77) *)
+      | 70 | 71 | 72 => match a with [x] => enc_zs (num_to_string x) | _ => wire_error end
+      | 76 => match a with [x] => enc_zs (num_to_string (x mod 2 ^ 64)) | _ => wire_error end
+      | 73 => zs (fun s => enc_r1 one (n_signed 64 s))
+      | 74 => zs (fun s => enc_r1 one (n_signed 8 s))
+      | 75 => zs (fun s => enc_r1 one (n_unsigned 8 s))
+      | 77 => zs (fun s => enc_r1 one (match n_unsigned 64 s with Ok v => Ok (wrap 64 v) | r => r end))
       | _ => c13f_run fn a
       end
   | [] => wire_error
